@@ -5,13 +5,13 @@ import json, os, sys
 V = os.path.dirname(os.path.dirname(os.path.abspath(__file__)))
 
 ENGINES = [
-    {"name": "E1-vsched", "path": "mount/zzverif/vsched", "serves_properties": ["C07", "C17", "C18"],
+    {"name": "E1-vsched", "path": "mount/zzverif/vsched", "serves_properties": ["C07", "C15", "C17", "C18"],
      "kind_free_text": "cooperative scheduler + sync shim (overlay import rewrite), DFS over thread interleavings with iterative preemption bounding, on the real code"},
     {"name": "E2-vos", "path": "mount/zzverif/vos", "serves_properties": ["C01", "C08", "C15", "C19"],
      "kind_free_text": "os shim with operation journal: enumeration of every crash prefix / torn write / lost unsynced tail and of every single injected I/O fault; recovery by the real loader in child processes"},
     {"name": "E3-smallscope", "path": "mount/zzverif/refdb", "serves_properties": ["C02", "C03", "C04", "C05", "C06", "C10", "C11", "C12", "C13", "C14", "C17", "C18", "C20"],
      "kind_free_text": "exhaustive small-scope enumeration of inputs / operation sequences on the real functions against a reference model (refdb); explicit-state BFS with canonical-state dedup for stateful objects"},
-    {"name": "E4-envdfs", "path": "mount/zzverif/hproxy", "serves_properties": ["C09", "C16"],
+    {"name": "E4-envdfs", "path": "mount/zzverif/hproxy", "serves_properties": ["C09", "C16", "C19", "C20"],
      "kind_free_text": "scripted StoreApiClient fakes; DFS over per-call environment answers with a deviation bound"},
 ]
 
